@@ -181,8 +181,10 @@ func connCases(o hx.Opts, emit func(string)) {
 				pre = fmt.Sprintf("j%d", 1+r.Intn(cp+1))
 			case x < 32:
 				pre = "sl"
-			case x < 39:
+			case x < 36:
 				pre = "fg"
+			case x < 39:
+				pre = "fn"
 			case x < 46:
 				pre = fmt.Sprintf("st%d", r.Intn(2))
 			}
